@@ -67,6 +67,26 @@ func ruleSuffix(c *Ctx) {
 		dcParam = fn.Params[1]
 	}
 	found, _ := guardControlsReturn(fn, relMatcher("==", anyVal, same(dcParam)), func(r *ssa.Return) bool { return retIsNilErr(r) })
+	if !found {
+		// the same decision written as a map lookup: if s, ok := stored[dcLocation]; ok { return s, nil }
+		for _, b := range fn.Blocks {
+			for _, ins := range b.Instrs {
+				lk, ok := ins.(*ssa.Lookup)
+				if !ok || !lk.CommaOk || !sameVal(lk.Index, dcParam) {
+					continue
+				}
+				isPart := func(v ssa.Value, i int) bool {
+					e, ok := strip(v).(*ssa.Extract)
+					return ok && e.Tuple == ssa.Value(lk) && e.Index == i
+				}
+				_, f2 := guardControlsReturn(fn, func(cond ssa.Value, pos bool) bool { return pos && isPart(cond, 1) },
+					func(r *ssa.Return) bool { return retIsNilErr(r) && isPart(retVal(r, 0), 0) })
+				if f2 {
+					found = true
+				}
+			}
+		}
+	}
 	c.Check(found, rule, "existing suffix in "+fnName(fn), "an already stored suffix of the same dc-location is returned unchanged", P.pos(fn.Pos()), "no comparison of stored dc-location with the requested one")
 	// the candidate is max+1
 	putVal := site.Op.Call.Args[1]
